@@ -2,6 +2,8 @@
 use crate::engine::{Replayer, Run};
 
 pub mod common;
+pub mod enc;
+pub mod encprops;
 pub mod c17;
 pub mod c18;
 pub mod c19;
@@ -9,6 +11,13 @@ pub mod c19;
 pub type Runner = fn(&mut Run);
 
 pub const ALL: &[(&str, Runner, Replayer)] = &[
+    ("C03", encprops::run_c03, encprops::replay_c03),
+    ("C04", encprops::run_c04, encprops::replay_c04),
+    ("C05", encprops::run_c05, encprops::replay_c05),
+    ("C06", encprops::run_c06, encprops::replay_c06),
+    ("C07", encprops::run_c07, encprops::replay_c07),
+    ("C08", encprops::run_c08, encprops::replay_c08),
+    ("C16", encprops::run_c16, encprops::replay_c16),
     ("C17", c17::run, c17::replay),
     ("C18", c18::run, c18::replay),
     ("C19", c19::run, c19::replay),
